@@ -69,13 +69,14 @@ func sigsParsedOf(s Sx) *bundle.Signatures {
 type tableStrategy struct {
 	priv ed25519.PrivateKey
 	pub  ed25519.PublicKey
+	pad  []byte // extra bytes appended to every signature (a misbehaving strategy)
 }
 
 func (t tableStrategy) Sign(data []byte) ([]byte, error) {
 	if t.priv == nil {
 		return nil, errors.New("strategy refuses")
 	}
-	return ed25519.Sign(t.priv, data), nil
+	return append(ed25519.Sign(t.priv, data), t.pad...), nil
 }
 func (t tableStrategy) GetPublicKey() (ed25519.PublicKey, error) { return t.pub, nil }
 
@@ -262,6 +263,9 @@ func init() {
 		if len(a) > 6 && a[6].K == 1 && len(a[6].B) == ed25519.SeedSize {
 			st.priv = ed25519.NewKeyFromSeed(a[6].B)
 			st.pub = st.priv.Public().(ed25519.PublicKey)
+		}
+		if len(a) > 7 && a[7].K == 1 {
+			st.pad = a[7].B
 		}
 		s := ib.IntegrityBlockSigner{SigningStrategy: st, WebBundleHash: a[0].B, IntegrityBlock: blk}
 		if err := s.SignAndAddNewSignature(ed25519.PublicKey(a[2].B), attrsOf(a[3])); err != nil {
